@@ -56,7 +56,7 @@ def main():
                                "dispatched by the real class hierarchy, local closures inlined, callback-taking callees by effect contract"},
             {"name": "ctorcheck", "path": "vf/ctorcheck.py", "serves_properties": sorted(p for p in C if "ctorcheck" in C[p].get("engine", "")),
              "kind_free_text": "attribute-preservation obligations: every constructor parameter of a rebuilt schema element is derived from the source element"},
-            {"name": "rxcheck", "path": "vf/rxcheck.py", "serves_properties": ["C01", "C02", "C12", "C13", "C15"],
+            {"name": "rxcheck", "path": "vf/rxcheck.py", "serves_properties": ["C01", "C02", "C11", "C12", "C13", "C15"],
              "kind_free_text": "regular-expression contracts: the language a compiled pattern accepts at each use site (pattern parsed with the interpreter's re._parser, character sets read "
                                "from the interpreter's engine over all code points) is proved equal to the specification language by a product of subset constructions; shortest "
                                "distinguishing string replayed on the real pattern; translation co-executed with re on short strings every run"},
